@@ -209,6 +209,16 @@ def cross_solver(d, limit=150, tlimit_ms=20000):
   return out
 
 
+def _worker_init():
+  """worker processes die with the runner (killed by a time-out wrapper, say) instead of lingering as orphans"""
+  try:
+    import ctypes, signal
+    ctypes.CDLL(None).prctl(1, signal.SIGKILL)      # PR_SET_PDEATHSIG
+    if os.getppid() == 1: os._exit(0)
+  except Exception:
+    pass
+
+
 def run_jobs(modname, jobs, opts, a):
   """runs the jobs over a pool of worker processes; a worker that dies (crash in a C extension) is
   reported as a harness error for its job instead of hanging the run"""
@@ -223,7 +233,7 @@ def run_jobs(modname, jobs, opts, a):
   attempts = 0
   while pending and attempts < 3:
     attempts += 1
-    ex = ProcessPoolExecutor(max_workers=min(a.procs, max(1, len(pending))), mp_context=mp.get_context('spawn'))
+    ex = ProcessPoolExecutor(max_workers=min(a.procs, max(1, len(pending))), mp_context=mp.get_context('spawn'), initializer=_worker_init)
     futs = {ex.submit(run_job, (modname, j, opts)): j for j in pending}
     done_names = set()
     broken = False
@@ -243,7 +253,7 @@ def run_jobs(modname, jobs, opts, a):
     if attempts >= 2:
       # run the survivors one per process to find the job that kills its worker
       for j in pending:
-        ex1 = ProcessPoolExecutor(max_workers=1, mp_context=mp.get_context('spawn'))
+        ex1 = ProcessPoolExecutor(max_workers=1, mp_context=mp.get_context('spawn'), initializer=_worker_init)
         try:
           results.append(ex1.submit(run_job, (modname, j, opts)).result())
         except Exception as e:
